@@ -11,14 +11,25 @@ CHECK = {
                   "operations over update/upsert/locking read x key sets; thorough: 3) with either ending first. A second "
                   "leg replays the C01 scenario set (all statement kinds, schemas and SQL spellings) and requires "
                   "that the registered keys name every row whose content changed across the local commit, and that "
-                  "one row is always spelt the same way.",
+                  "one row is always spelt the same way. A third leg (race, ATLocks_Race.tla) lets the operations of the "
+                  "two global transactions overlap in time: an operation has a start, a linearization point (the local "
+                  "commit of a write, observed in the database journal) and an end; A's operation (locking read in "
+                  "autocommit or explicit use, update, upsert; thorough: delete, explicit update) is parked before its "
+                  "k-th database statement (k = 1..8) or before/after the coordinator's answer to its lock query / "
+                  "branch registration while B's update/upsert/delete on overlapping rows runs to completion or until "
+                  "it blocks on A's row locks. A successful locking read must return the rows of one moment of its "
+                  "execution at which none of them was written-and-held by the other open transaction, every returned "
+                  "row must have been named in a lock query answered lockable, a failed read must hold no row lock, a "
+                  "write must not land on a row the other open transaction wrote, failed operations change nothing and "
+                  "the final table is what the successful operations produce.",
     "level_note": "Trusted: TLC, memsql, the coordinator stand-in's lock table, the documented lock-key grammar "
                   "table:pk[_pk2][,..];.. used to parse the keys. Bounds: 2 rows, 2 global transactions operating one "
                   "operation at a time (true statement-level interleaving of two local transactions is not enumerated); "
                   "varchar keys containing the grammar's separators are excluded from the coverage leg.",
-    "technique": "TLA+ spec + TLC design check; TLC-enumerated two-transaction operation sequences replayed on the real "
-                 "proxy driver against a lock-table coordinator; TLC trace validation",
-    "mc": [("ATLocks_MC", "ATLocks_MC.cfg", {"workers": 4})],
+    "technique": "TLA+ spec + TLC design check; TLC-enumerated two-transaction operation sequences and statement-level "
+                 "overlaps (statement gate / coordinator reply gate) replayed on the real proxy driver against a "
+                 "lock-table coordinator; TLC trace validation",
+    "mc": [("ATLocks_MC", "ATLocks_MC.cfg", {"workers": 4}), ("ATLocks_Race_MC", "ATLocks_Race_MC.cfg", {"workers": 4})],
     "legs": [
         {"name": "two", "driver": "atlk", "args": ["-mode", "two"],
          "gen_quick": [("ATLocks_MC", "ATLocks_Gen.cfg")], "gen_thorough": [("ATLocks_MC", "ATLocks_GenT.cfg")],
@@ -27,6 +38,9 @@ CHECK = {
          "env": {"ONLYCARE": "true", "VALIDATE": "true"},
          "gen": [("ATRollback_MC", "ATRollback_Gen_C01.cfg")],
          "trace": ("ATLocks_Trace", "ATLocks_Trace.cfg"), "shards": 4, "deterministic": True},
+        {"name": "race", "driver": "atlk", "args": ["-mode", "race"],
+         "gen_quick": [("ATLocks_Race_MC", "ATLocks_Race_Gen.cfg")], "gen_thorough": [("ATLocks_Race_MC", "ATLocks_Race_GenT.cfg")],
+         "trace": ("ATLocks_Race_Trace", "ATLocks_Race_Trace.cfg"), "shards": 8, "shards_thorough": 16},
     ],
     "assumptions": ["the coordinator releases a global transaction's locks when it ends; lock conflicts are answered "
                     "with result code Failed + LockKeyConflict"],
